@@ -62,6 +62,7 @@ CUSTOM_STYLES = {
     "custom4list": ["  ", "! ", "\\_", "+_"],
     "custom6": ("  ", "| ", "L-", "T-", "L+", "T+"),
     "custom6var": ("0:", "1::", "<2>", "<3>>", "<4+>", "<5++>"),  # prefix-free, different widths
+    "custom6empty": ("  ", "| ", "L-", "T-", "", ""),  # a valid 6-tuple whose parent connectors are empty strings (falsy, but given)
 }
 TITLES = (None, False, "My Title", True)
 REPRS = ("default", "template", "callable", "empty", "multiline")  # "empty": the valid format string "" (every rendering is "", lines are the bare prefixes)
@@ -359,7 +360,8 @@ def check_one(info: Info, typed, start, style_name, title, add_self, repr_kind, 
             out.append((C_PRINT, f"print(): {err[1]}"))
         elif buf.getvalue() != got_text + "\n":
             out.append((C_PRINT, f"print(join={join!r}) wrote {buf.getvalue()!r}, format() = {got_text!r}"))
-    if decode and style_name != "list" and len(got_lines) == len(exp):
+    # (decoding presupposes that every segment is visible: a custom style with an empty connector cannot encode the shape)
+    if decode and style_name != "list" and len(got_lines) == len(exp) and all(segments(style_name)):
         body = got_lines[len(title_lines):]
         if all(g.endswith(r) for g, (_i, _l, _p, r) in zip(body, rows)):
             prefixes = [g[: len(g) - len(r)] for g, (_i, _l, _p, r) in zip(body, rows)]
